@@ -5,12 +5,20 @@ From Kava Require Import Base.Prelude Model.Erc20 Model.Evmutil Proofs.Evmutil.
 (** * Backing, for all histories *)
 
 (* Every history of the four conversion messages (or direct keeper calls),
-   ERC20 transfers and mints, bank sends and parameter changes, none of them
-   signed by the module account, preserves the module invariant. *)
+   ERC20 transfers, mints, approvals and transferFroms, bank sends and validated
+   parameter changes, none of them signed by the module account or the zero
+   address, preserves the module invariant. *)
 Theorem C10_invariant_all_histories :
   forall e ops s, env_wf e -> Inv e s -> Forall (op_wf e) ops -> Inv e (run e s ops).
 Proof. intros e ops s. exact (run_inv e ops s). Qed.
 Print Assumptions C10_invariant_all_histories.
+
+(* The same for histories of transactions: several messages executed atomically
+   (all of them or none, as baseapp does). *)
+Theorem C10_invariant_all_transaction_histories :
+  forall e txs s, env_wf e -> Inv e s -> Forall (Forall (op_wf e)) txs -> Inv e (run_txs e s txs).
+Proof. intros e txs s. exact (run_txs_inv e txs s). Qed.
+Print Assumptions C10_invariant_all_transaction_histories.
 
 (* For every cosmos coin with a module-deployed ERC20 the ERC20 total supply
    equals the module account's balance of that coin — after every history. *)
@@ -24,12 +32,28 @@ Print Assumptions C10_cosmos_native_backed.
 (* For every enabled pair the coin supply, times 10^10 for the bep3 assets,
    never exceeds the ERC20 tokens held by the module's EVM address. *)
 Theorem C10_evm_native_backed :
-  forall e ops s c, env_wf e -> Inv e s -> Forall (op_wf e) ops ->
-  pair_enabled e (run e s ops) c = true ->
-  sup (run e s ops) (pair_denom e c) * (if is_bep3 e (pair_denom e c) then 10 ^ 10 else 1)
+  forall e ops s c d, env_wf e -> Inv e s -> nonneg s -> Forall (op_wf e) ops ->
+  In (c, d) (pairs (run e s ops)) ->
+  sup (run e s ops) d * (if is_bep3 e d then 10 ^ 10 else 1)
     <= ebal (erc (run e s ops) c) (macc e).
 Proof. exact evm_native_backed. Qed.
 Print Assumptions C10_evm_native_backed.
+
+(* Nobody ever holds an allowance over the tokens locked for a pair ... *)
+Theorem C10_no_allowance_over_locked_tokens :
+  forall e ops s c d a, env_wf e -> Inv e s -> Forall (op_wf e) ops ->
+  In (c, d) (pairs (run e s ops)) -> kind e c = Oz ->
+  eallow (erc (run e s ops) c) (macc e) a = 0.
+Proof. exact no_allowance_over_locked_tokens. Qed.
+Print Assumptions C10_no_allowance_over_locked_tokens.
+
+(* ... so a transferFrom out of the module's EVM address moves nothing. *)
+Theorem C10_transfer_from_module_moves_nothing :
+  forall e s c sp t x s', Inv e s -> (c < npair e)%nat -> kind e c = Oz ->
+  step e s (ErcTransferFrom c sp (macc e) t x) = Ok s' tt ->
+  forall a, ebal (erc s' c) a = ebal (erc s c) a.
+Proof. exact transfer_from_module_moves_nothing. Qed.
+Print Assumptions C10_transfer_from_module_moves_nothing.
 
 (* Bank balances and ERC20 balances stay non-negative and total supplies below
    2^256 (the range hypothesis of the round trips is reachable-state closed). *)
@@ -46,7 +70,7 @@ Print Assumptions C10_balances_in_range_all_histories.
 Theorem C10_conversion_value_cosmos_to_erc20 :
   forall e s i r d x s',
   conv_cosmos_to_erc20 e s i r d x = Ok s' tt -> 0 <= x < U256 ->
-  allowed s d = true /\ (x = 0 \/ x <= bal s i d) /\
+  allowed s d = true /\ r <> zacc e /\ (x = 0 \/ x <= bal s i d) /\
   exists c, reg s' d = Some c /\
     ((reg s d = Some c /\ reg s' = reg s /\ next s' = next s) \/
      (reg s d = None /\ c = next s /\ reg s' = upd (reg s) d (Some c) /\ next s' = S (next s))) /\
@@ -60,12 +84,22 @@ Theorem C10_conversion_value_cosmos_to_erc20 :
 Proof. exact conv_cosmos_to_erc20_spec. Qed.
 Print Assumptions C10_conversion_value_cosmos_to_erc20.
 
+(* after a successful ConvertCosmosCoinToERC20 the denom's registered contract is a
+   deployed wrapper in which the receiver's balance rose by exactly the amount *)
+Theorem C10_cosmos_to_erc20_contract_exists :
+  forall e s i r d x s',
+  Inv e s -> 0 <= x < U256 -> conv_cosmos_to_erc20 e s i r d x = Ok s' tt ->
+  exists c, reg s' d = Some c /\ (npair e <= c < next s')%nat /\
+            ebal (erc s' c) r = ebal (wl s d) r + x /\ etot (erc s' c) = etot (wl s d) + x.
+Proof. exact cosmos_to_erc20_contract_exists. Qed.
+Print Assumptions C10_cosmos_to_erc20_contract_exists.
+
 (* ConvertCosmosCoinFromERC20: x wrapper tokens of the initiator burned, x coins
    module account -> receiver. *)
 Theorem C10_conversion_value_cosmos_from_erc20 :
   forall e s i r d x s',
   conv_cosmos_from_erc20 e s i r d x = Ok s' tt -> 0 <= x < U256 ->
-  exists c, reg s d = Some c /\ blocked e r = false /\ x <= ebal (erc s c) i /\
+  exists c, reg s d = Some c /\ i <> zacc e /\ blocked e r = false /\ x <= ebal (erc s c) i /\
     (x = 0 \/ x <= bal s (macc e) d) /\
     (forall a, ebal (erc s' c) a = ebal (erc s c) a - dlt (Nat.eqb a i) x) /\
     etot (erc s' c) = etot (erc s c) - x /\
@@ -76,19 +110,21 @@ Theorem C10_conversion_value_cosmos_from_erc20 :
 Proof. exact conv_cosmos_from_erc20_spec. Qed.
 Print Assumptions C10_conversion_value_cosmos_from_erc20.
 
-(* ConvertERC20ToCoin: lock = mint * k tokens initiator -> module EVM address,
-   mint coins minted to the receiver (k = 10^10, mint = floor(x/10^10) for bep3; else k = 1, mint = x). *)
+(* ConvertERC20ToCoin through the enabled pair (c, d): lock = mint * k tokens initiator ->
+   module EVM address, mint coins minted to the receiver (k = 10^10, mint = floor(x/10^10)
+   for bep3; else k = 1, mint = x); the contract has code, OpenZeppelin behaviour and the
+   allowances in it are untouched. *)
 Theorem C10_conversion_value_erc20_to_coin :
   forall e s i r c x s',
   conv_erc20_to_coin e s i r c x = Ok s' tt ->
-  let d := pair_denom e c in
+  exists d, pair_of_ctr s c = Some d /\
   let mint := if is_bep3 e d then x / K10 else x in
   let lock := mint * kf e d in
-  (c < npair e)%nat /\ enabled s c = true /\ blocked e r = false /\
+  (c < next s)%nat /\ kind e c = Oz /\ i <> zacc e /\ macc e <> zacc e /\ blocked e r = false /\
   (is_bep3 e d = true -> mint <> 0) /\
   0 <= lock < U256 /\ lock <= ebal (erc s c) i /\
   (forall a, ebal (erc s' c) a = ebal (erc s c) a - dlt (Nat.eqb a i) lock + dlt (Nat.eqb a (macc e)) lock) /\
-  etot (erc s' c) = etot (erc s c) /\
+  etot (erc s' c) = etot (erc s c) /\ eallow (erc s' c) = eallow (erc s c) /\
   (forall c', c' <> c -> erc s' c' = erc s c') /\
   (forall a d', bal s' a d' = bal s a d' + dlt (Nat.eqb a r && Nat.eqb d' d) mint) /\
   (forall d', sup s' d' = sup s d' + dlt (Nat.eqb d' d) mint) /\
@@ -101,12 +137,13 @@ Print Assumptions C10_conversion_value_erc20_to_coin.
 Theorem C10_conversion_value_coin_to_erc20 :
   forall e s i r d x s',
   conv_coin_to_erc20 e s i r d x = Ok s' tt -> i <> macc e ->
-  exists c, pair_of_denom e s d = Some c /\
+  exists c, pair_of_denom s d = Some c /\
   let unlock := x * kf e d in
+  (c < next s)%nat /\ kind e c = Oz /\ r <> zacc e /\ macc e <> zacc e /\
   (x = 0 \/ x <= bal s i d) /\
   0 <= unlock < U256 /\ unlock <= ebal (erc s c) (macc e) /\
   (forall a, ebal (erc s' c) a = ebal (erc s c) a - dlt (Nat.eqb a (macc e)) unlock + dlt (Nat.eqb a r) unlock) /\
-  etot (erc s' c) = etot (erc s c) /\
+  etot (erc s' c) = etot (erc s c) /\ eallow (erc s' c) = eallow (erc s c) /\
   (forall c', c' <> c -> erc s' c' = erc s c') /\
   (forall a d', bal s' a d' = bal s a d' - dlt (Nat.eqb a i && Nat.eqb d' d) x) /\
   (forall d', sup s' d' = sup s d' - dlt (Nat.eqb d' d) x) /\
@@ -141,9 +178,9 @@ Print Assumptions C10_round_trip_cosmos_back.
 
 Theorem C10_round_trip_evm :
   forall e s i r c x s1,
-  env_wf e -> nonneg s -> 0 <= x -> i <> macc e ->
+  env_wf e -> nonneg s -> pairs_nodup (pairs s) -> 0 <= x -> i <> macc e ->
   conv_erc20_to_coin e s i r c x = Ok s1 tt ->
-  let d := pair_denom e c in
+  exists d, pair_of_ctr s c = Some d /\
   let mint := if is_bep3 e d then x / K10 else x in
   exists s2, conv_coin_to_erc20 e s1 r i d mint = Ok s2 tt /\
     (forall a d', bal s2 a d' = bal s a d') /\ (forall d', sup s2 d' = sup s d') /\
@@ -155,10 +192,10 @@ Print Assumptions C10_round_trip_evm.
 
 Theorem C10_round_trip_evm_back :
   forall e s i r d x s1,
-  env_wf e -> nonneg s -> 0 <= x -> (is_bep3 e d = true -> 0 < x) ->
+  env_wf e -> nonneg s -> pairs_nodup (pairs s) -> 0 <= x -> (is_bep3 e d = true -> 0 < x) ->
   i <> macc e -> r <> macc e -> blocked e i = false ->
   conv_coin_to_erc20 e s i r d x = Ok s1 tt ->
-  exists c s2, pair_of_denom e s d = Some c /\
+  exists c s2, pair_of_denom s d = Some c /\
     conv_erc20_to_coin e s1 r i c (x * kf e d) = Ok s2 tt /\
     (forall a d', bal s2 a d' = bal s a d') /\ (forall d', sup s2 d' = sup s d') /\
     (forall c' a, ebal (erc s2 c') a = ebal (erc s c') a) /\
@@ -170,20 +207,20 @@ Print Assumptions C10_round_trip_evm_back.
 (** * ERC20 dust smaller than one sdk unit is never taken from the user *)
 
 Theorem C10_dust_kept :
-  forall e s i r c x s',
-  is_bep3 e (pair_denom e c) = true -> i <> macc e ->
+  forall e s i r c d x s',
+  pair_of_ctr s c = Some d -> is_bep3 e d = true -> i <> macc e ->
   conv_erc20_to_coin e s i r c x = Ok s' tt ->
   let locked := x / K10 * K10 in
   ebal (erc s c) i - ebal (erc s' c) i = locked /\
   ebal (erc s' c) (macc e) - ebal (erc s c) (macc e) = locked /\
   0 <= x - locked < K10 /\
-  bal s' r (pair_denom e c) = bal s r (pair_denom e c) + x / K10.
+  bal s' r d = bal s r d + x / K10.
 Proof. exact dust_kept. Qed.
 Print Assumptions C10_dust_kept.
 
 Theorem C10_dust_only_refused :
   forall e s i r c x,
-  is_bep3 e (pair_denom e c) = true -> 0 <= x < K10 ->
+  (forall d, pair_of_ctr s c = Some d -> is_bep3 e d = true) -> 0 <= x < K10 ->
   conv_erc20_to_coin e s i r c x = Err.
 Proof. exact dust_only_refused. Qed.
 Print Assumptions C10_dust_only_refused.
@@ -195,15 +232,22 @@ Theorem C10_failed_changes_nothing :
 Proof. exact step'_failed. Qed.
 Print Assumptions C10_failed_changes_nothing.
 
+(* a transaction in which a later message fails undoes its earlier messages as well
+   (for instance the wrapper deployed by a first ConvertCosmosCoinToERC20) *)
+Theorem C10_failed_transaction_changes_nothing :
+  forall e tx1 o tx2 s s1,
+  tx_step e s tx1 = Ok s1 tt -> (forall s' u, step e s1 o <> Ok s' u) ->
+  tx_step' e s (tx1 ++ o :: tx2) = s.
+Proof. exact tx_step_failing_msg. Qed.
+Print Assumptions C10_failed_transaction_changes_nothing.
+
 Theorem C10_disabled_pair_refused_erc20_to_coin :
-  forall e s i r c x, pair_enabled e s c = false -> conv_erc20_to_coin e s i r c x = Err.
+  forall e s i r c x, (forall d, ~ In (c, d) (pairs s)) -> conv_erc20_to_coin e s i r c x = Err.
 Proof. exact disabled_pair_refused_erc20_to_coin. Qed.
 Print Assumptions C10_disabled_pair_refused_erc20_to_coin.
 
 Theorem C10_disabled_pair_refused_coin_to_erc20 :
-  forall e s i r d x,
-  (forall c, (c < npair e)%nat -> pair_denom e c = d -> enabled s c = false) ->
-  conv_coin_to_erc20 e s i r d x = Err.
+  forall e s i r d x, (forall c, ~ In (c, d) (pairs s)) -> conv_coin_to_erc20 e s i r d x = Err.
 Proof. exact disabled_pair_refused_coin_to_erc20. Qed.
 Print Assumptions C10_disabled_pair_refused_coin_to_erc20.
 
@@ -217,6 +261,19 @@ Theorem C10_unregistered_denom_refused :
 Proof. exact unregistered_refused. Qed.
 Print Assumptions C10_unregistered_denom_refused.
 
+(* the zero address as receiver: the ERC20 mint / transfer reverts; in particular a FIRST
+   conversion of a cosmos denom to the zero address is refused as a whole — no wrapper
+   stays deployed or registered, no coin stays locked *)
+Theorem C10_zero_receiver_refused_cosmos_to_erc20 :
+  forall e s i d x, conv_cosmos_to_erc20 e s i (zacc e) d x = Err.
+Proof. exact zero_receiver_refused_cosmos_to_erc20. Qed.
+Print Assumptions C10_zero_receiver_refused_cosmos_to_erc20.
+
+Theorem C10_zero_receiver_refused_coin_to_erc20 :
+  forall e s i d x s', conv_coin_to_erc20 e s i (zacc e) d x <> Ok s' tt.
+Proof. exact zero_receiver_refused_coin_to_erc20. Qed.
+Print Assumptions C10_zero_receiver_refused_coin_to_erc20.
+
 (* amounts above the initiator's balance *)
 Theorem C10_overdraw_refused_coin_to_erc20 :
   forall e s i r d x s',
@@ -225,8 +282,8 @@ Proof. exact overdraw_refused_coin_to_erc20. Qed.
 Print Assumptions C10_overdraw_refused_coin_to_erc20.
 
 Theorem C10_overdraw_refused_erc20_to_coin :
-  forall e s i r c x s',
-  let d := pair_denom e c in
+  forall e s i r c d x s',
+  pair_of_ctr s c = Some d ->
   let lock := (if is_bep3 e d then x / K10 else x) * kf e d in
   ebal (erc s c) i < lock -> conv_erc20_to_coin e s i r c x <> Ok s' tt.
 Proof. exact overdraw_refused_erc20_to_coin. Qed.
@@ -260,54 +317,147 @@ Theorem C10_unlock_to_module_refused :
 Proof. exact unlock_to_module_refused. Qed.
 Print Assumptions C10_unlock_to_module_refused.
 
+(** * The Approval-event guard: a pair whose token changes allowances inside
+      transfer() (and says so) cannot be converted through, in either direction *)
+
+Theorem C10_approval_pair_refused_erc20_to_coin :
+  forall e s i r c x, kind e c = Refund -> conv_erc20_to_coin e s i r c x = Err.
+Proof. exact approval_pair_refused_erc20_to_coin. Qed.
+Print Assumptions C10_approval_pair_refused_erc20_to_coin.
+
+Theorem C10_approval_pair_refused_coin_to_erc20 :
+  forall e s i r d x c,
+  pair_of_denom s d = Some c -> kind e c = Refund -> conv_coin_to_erc20 e s i r d x = Err.
+Proof. exact approval_pair_refused_coin_to_erc20. Qed.
+Print Assumptions C10_approval_pair_refused_coin_to_erc20.
+
+Theorem C10_approval_pair_changes_nothing :
+  forall e s dr i r c d x, kind e c = Refund ->
+  step' e s (ConvERC20ToCoin dr i r c x) = s /\
+  (pair_of_denom s d = Some c -> step' e s (ConvCoinToERC20 dr i r d x) = s).
+Proof. exact approval_pair_changes_nothing. Qed.
+Print Assumptions C10_approval_pair_changes_nothing.
+
+(** * Parameter changes: exactly the duplicate-free lists of well-formed pairs are
+      accepted, hence the keeper's lookups by denom and by address are functions *)
+
+Theorem C10_valid_pairs_characterised :
+  forall ps l, valid_pairs ps = Some l <-> decode_pairs ps = Some l /\ pairs_nodup l.
+Proof. exact valid_pairs_spec. Qed.
+Print Assumptions C10_valid_pairs_characterised.
+
+Theorem C10_set_params_accepts_only_valid_lists :
+  forall e s ps ts s', step e s (SetParams ps ts) = Ok s' tt ->
+  valid_pairs ps = Some (pairs s') /\ pairs_nodup (pairs s') /\
+  (exists al, valid_toks ts = Some al /\ allowed s' = memb al) /\
+  bal s' = bal s /\ sup s' = sup s /\ erc s' = erc s /\ reg s' = reg s /\ next s' = next s.
+Proof. exact set_params_spec. Qed.
+Print Assumptions C10_set_params_accepts_only_valid_lists.
+
+Theorem C10_set_params_refuses_invalid_lists :
+  forall e s ps ts, valid_pairs ps = None \/ valid_toks ts = None -> step e s (SetParams ps ts) = Err.
+Proof. exact set_params_refused. Qed.
+Print Assumptions C10_set_params_refuses_invalid_lists.
+
+Theorem C10_malformed_pair_refused :
+  forall ps p, In p ps -> (p_addr p = AZero \/ p_addr p = ABadLen \/ p_denom p = None) ->
+  valid_pairs ps = None.
+Proof. exact malformed_pair_refused. Qed.
+Print Assumptions C10_malformed_pair_refused.
+
+Theorem C10_duplicate_pair_refused :
+  forall ps1 p ps2 p' ps3, (p_addr p = p_addr p' \/ p_denom p = p_denom p') ->
+  valid_pairs (ps1 ++ p :: ps2 ++ p' :: ps3) = None.
+Proof. exact duplicate_pair_refused. Qed.
+Print Assumptions C10_duplicate_pair_refused.
+
+(* after every history (no assumption on who signs or what governance proposes) the enabled
+   pairs are duplicate-free and the lookups return THE pair of a denom / of an address *)
+Theorem C10_enabled_pairs_duplicate_free_all_histories :
+  forall e ops s, pairs_nodup (pairs s) -> pairs_nodup (pairs (run e s ops)).
+Proof. intros e ops s. exact (run_pairs_nodup e ops s). Qed.
+Print Assumptions C10_enabled_pairs_duplicate_free_all_histories.
+
+Theorem C10_pair_lookup_is_a_function :
+  forall e ops s c d, pairs_nodup (pairs s) -> In (c, d) (pairs (run e s ops)) ->
+  pair_of_denom (run e s ops) d = Some c /\ pair_of_ctr (run e s ops) c = Some d.
+Proof. exact run_lookup_functional. Qed.
+Print Assumptions C10_pair_lookup_is_a_function.
+
 Theorem C10_no_panic : forall e s o, step e s o <> Panic.
 Proof. exact step_no_panic. Qed.
 Print Assumptions C10_no_panic.
 
 (** * Non-vacuity *)
 
-(* accounts 0,1 users, 2 the module (blocked); pair contract 0 <-> denom 0 (bep3),
-   pair contract 1 <-> denom 1; denom 2 is an allowed cosmos coin *)
-Definition ex_env : env := mk_env 3 3 2 [false; false; true] [0; 1]%nat [true; false; false].
+(* accounts 0,1 users, 2 the module (blocked), 3 the zero address; pair contract 0 <-> denom 0
+   (bep3), pair contract 1 <-> denom 1, pair contract 2 <-> denom 3 with the Approval-emitting
+   bytecode; denom 2 is an allowed cosmos coin *)
+Definition ex_env : env :=
+  mk_envx 4 4 2 3 [false; false; true; false] [0; 1; 3]%nat [false; false; true] [true; false; false; false].
 Definition ex_state : state :=
-  mk_state [[0; 0; 500]; [0; 0; 40]; [0; 0; 0]] [0; 0; 540]
-           [(30000000007, [30000000007; 0; 0]); (90, [50; 40; 0])] [] [true; true] [false; false; true].
+  mk_state [[0; 0; 500; 0]; [0; 0; 40; 0]; [0; 0; 0; 0]; [0; 0; 0; 0]] [0; 0; 540; 0]
+           [(30000000007, [30000000007; 0; 0; 0]); (90, [50; 40; 0; 0]); (0, [77; 0; 0; 0])]
+           [] [(0, 0); (1, 1); (2, 3)]%nat [2%nat].
 
-Example C10_hypotheses_satisfiable : env_wf ex_env /\ Inv ex_env ex_state /\ nonneg ex_state.
+Example C10_hypotheses_satisfiable :
+  env_wf ex_env /\ Inv ex_env ex_state /\ nonneg ex_state /\ pairs_nodup (pairs ex_state).
 Proof.
-  split; [|split].
-  - split; [reflexivity|]. intros c c' Hc Hc' H. cbn in Hc, Hc'.
-    destruct c as [|[|c]], c' as [|[|c']]; try lia; cbn in H; try reflexivity; discriminate.
+  split; [|split; [|split]].
+  - split; [reflexivity|]. split; [|cbn; lia]. intros c c' Hc Hc' H. cbn in Hc, Hc'.
+    destruct c as [|[|[|c]]], c' as [|[|[|c']]]; try lia; cbn in H; try reflexivity; discriminate.
   - unfold Inv. split; [cbn; lia|]. split; [intros d c H; discriminate|].
     split; [intros d d' c H; discriminate|]. split.
-    + intros d. cbn. destruct d as [|[|[|[|d]]]]; reflexivity.
-    + intros c Hc. cbn in Hc. destruct c as [|[|c]]; [vm_compute; discriminate|vm_compute; discriminate|lia].
+    { intros d. cbn. destruct d as [|[|[|[|[|d]]]]]; reflexivity. }
+    split.
+    { intros c Hc Hk. cbn in Hc. destruct c as [|[|[|c]]]; [vm_compute; discriminate|vm_compute; discriminate|discriminate Hk|lia]. }
+    split.
+    { intros c Hc Hk a. cbn in Hc. destruct c as [|[|[|c]]]; [| |discriminate Hk|lia];
+        destruct a as [|[|[|[|[|a]]]]]; reflexivity. }
+    split.
+    { intros c Hc Hk. cbn in Hc. destruct c as [|[|[|c]]]; [discriminate Hk|discriminate Hk|reflexivity|lia]. }
+    repeat constructor; cbn; lia.
   - split; [|split].
-    + intros a d. destruct a as [|[|[|[|a]]]], d as [|[|[|[|d]]]]; vm_compute; discriminate.
-    + intros c a. destruct c as [|[|[|c]]], a as [|[|[|[|a]]]]; vm_compute; discriminate.
-    + intros c. destruct c as [|[|[|c]]]; vm_compute; reflexivity.
+    + intros a d. destruct a as [|[|[|[|[|a]]]]], d as [|[|[|[|[|d]]]]]; vm_compute; discriminate.
+    + intros c a. destruct c as [|[|[|[|c]]]], a as [|[|[|[|[|a]]]]]; vm_compute; discriminate.
+    + intros c. destruct c as [|[|[|[|c]]]]; vm_compute; reflexivity.
+  - apply pairs_nodupb_spec. reflexivity.
 Qed.
 
-(* a history on that state: a bep3 conversion with dust, the way back, a
-   cosmos-coin conversion that deploys the wrapper, a refused dust-only
-   conversion and a refused conversion of a disabled pair *)
+(* a history on that state: a bep3 conversion with dust, a cosmos-coin conversion that deploys
+   the wrapper, the way back of the first, a refused dust-only conversion, an approval and a
+   transferFrom, a validated parameter change that disables pair 1; then refused: a conversion
+   of the disabled pair, a conversion through the Approval-emitting pair, a cosmos-coin
+   conversion to the zero address, parameter lists with a duplicate denom / a zero address *)
 Example C10_history_nonvacuous :
+  let P := fun c d => mkPraw (ACtr c) (Some d) in
+  let T := fun d => mkTraw (Some d) true (Some d) true in
   let ops := [ConvERC20ToCoin false 0 1 0 25000000003;
               ConvCosmosToERC20 false 0 1 2 120;
               ConvCoinToERC20 false 1 0 0 1;
               ConvERC20ToCoin false 0 1 0 9999999999;
-              SetParams [true; false] [false; false; true];
+              ErcApprove 1 0 1 30;
+              ErcTransferFrom 1 1 0 1 20;
+              SetParams [P 0 0; P 2 3]%nat [T 2%nat];
               ConvERC20ToCoin false 1 0 1 10]%nat in
   let s := run ex_env ex_state ops in
   Forall (op_wf ex_env) ops /\
   map (fun o => class_of (step ex_env ex_state o)) [nth 0 ops (SetParams [] [])] = [ROk] /\
   (ebal (erc s 0) 0, ebal (erc s 0) 2, bal s 1 0, sup s 0)%nat = (20000000007, 10000000000, 1, 1) /\
-  reg s 2%nat = Some 2%nat /\ (etot (erc s 2), bal s 2 2, ebal (erc s 2) 1)%nat = (120, 120, 120) /\
+  reg s 2%nat = Some 3%nat /\ (etot (erc s 3), bal s 2 2, ebal (erc s 3) 1)%nat = (120, 120, 120) /\
+  (ebal (erc s 1) 0, ebal (erc s 1) 1, eallow (erc s 1) 0 1)%nat = (30, 60, 10) /\
+  pairs s = [(0, 0); (2, 3)]%nat /\
   step ex_env s (ConvERC20ToCoin false 0 1 0 9999999999) = Err /\
   step ex_env s (ConvERC20ToCoin false 1 0 1 10) = Err /\
+  step ex_env s (ConvERC20ToCoin false 0 1 2 5) = Err /\
+  step ex_env s (ConvCosmosToERC20 false 0 3 2 5) = Err /\
+  step ex_env s (SetParams [P 0 1; P 1 1]%nat [T 2%nat]) = Err /\
+  step ex_env s (SetParams [P 0 0; mkPraw AZero (Some 1%nat)]%nat [T 2%nat]) = Err /\
+  tx_step' ex_env ex_state [ConvCosmosToERC20 false 0 1 2 120; ConvERC20ToCoin false 0 1 0 5]%nat = ex_state /\
   inv_b ex_env s = true.
 Proof.
   cbv zeta. split.
-  - repeat constructor; unfold op_wf; cbn; discriminate.
+  - repeat constructor; unfold op_wf; cbn; try discriminate.
+    intros l H. vm_compute in H. inversion H; subst. repeat constructor; cbn; lia.
   - repeat split; vm_compute; reflexivity.
 Qed.
